@@ -374,6 +374,8 @@ def run(model, col, tier, share=True):
         if isinstance(n, (ast.ListComp, ast.GeneratorExp)):
             it = n.generators[0].iter
             iter_all = unparse(it)
+        elif isinstance(n, ast.Call) and isinstance(n.func, ast.Name) and n.func.id == "map" and len(n.args) == 2 and isinstance(n.args[0], ast.Name) and n.args[0].id in ("str", "repr"):
+            iter_all = unparse(n.args[1])  # map(str, <types>) is the same enumeration
     col.check(uses_name, "R03.4", f"{TYPES}::Function.GetMangledName mentions the name", "mangled name contains self.name", None, TYPES, gm)
     col.check(iter_all is not None and "argumentTypes" in iter_all and iter_all.endswith(".values()") and "[" not in iter_all and not any(
         isinstance(n, ast.Subscript) and isinstance(n.slice, ast.Slice) for n in ast.walk(gm)), "R03.4",
